@@ -63,8 +63,10 @@ package crdt
 // "a batch is committed when it reaches its size limit or its age limit": the worker keeps a timer
 // pending whenever the batch is non-empty, starts it with the first item of a batch only, commits at
 // the size limit, and never blocks forever on the timer channel
+// (C18: "never produces ... a deadlock", for the CRDT batching queue: the blocking drain of the timer channel is only
+// reached with a timer that has fired or will fire)
 //@ func (css *Consensus) batchWorker
-//@   property C02
+//@   property C02 C18
 //@   requires css.config.Batching.MaxBatchSize > 0
 //@   at_call time.Timer.Reset assert [age-counts-from-the-first-item] batchCurSize == 0 || timerState == 0
 //@   loop 1 (for)
@@ -140,4 +142,5 @@ package crdt
 //@ func (css *Consensus) Shutdown
 //@   property C18
 //@   opts own
+//@   ensures [success-means-shut-down] err == nil ==> css.shutdown
 //@   modifies *
